@@ -24,11 +24,13 @@ def plan(tier):
     asize = 3 if tier == 'thorough' else 2
     tasks = []
     for cfg in sc.product_configs('sage', tier):
+        base = cfg['alpha'] == F(1, 4) and cfg['n_inner'] < 3 and cfg['storage'] in ('Batch', 'Uniform', 'Geometric') \
+            and cfg['names'] != 'float'
         cfg = dict(cfg, spy=(cfg['d'] + cfg['n_inner']) % 2 == 0)
         if sc.is_core(cfg):
             tasks.append((cfg, T + 1 if tier == 'thorough' else T, None, False, 3, 'exact'))
         else:
-            tasks.append((cfg, T, 1, True, asize, 'exact'))
+            tasks.append((cfg, T, 1, True, asize if base else 2, 'exact'))
     # library defaults and remaining storages / n_inner=3 (not in the quick product)
     for dyn in (False, True):
         for d in (1, 2, 3):
@@ -153,7 +155,7 @@ def main(rep):
                                       'default_last': r['default_last']})
         if r['violations']:
             continue
-        if r['values'] < 2:
+        if r['values'] < 2 and not (cfg['dynamic'] and cfg['alpha'] == 1):   # alpha=1: marginal prediction == prediction
             raise choice.HarnessError(f"non-vacuity: {sc.cfg_desc(cfg)} produced {r['values']} distinct non-zero "
                                       f"explained losses")
         rep.mark_nontrivial([(sc.cfg_desc(cfg), mode, i) for i in range(min(r['values'], 50))])
